@@ -75,6 +75,7 @@ def prefixes(tier, seed):
     Ss = S_QUICK if tier == "quick" else S_QUICK + [[[3, 0, 0], [0, 3, 0], [0, 0, 1]], [[2, 0, 0], [1, 1, 0], [0, 1, 2]],
                                                    [[1, 2, 0], [0, 1, 0], [1, 0, 2]], [[3, 1, 0], [0, 1, 0], [0, 0, 1]], [[2, 0, 0], [0, 2, 0], [0, 0, 3]]]
     maxat = 48 if tier == "quick" else 96
+    names = list(names) + ["P4mm-dd-8"]
     for name in names:
         c = cr[name]
         vars_ = ["as-is", "reversed"] if tier == "quick" else ["as-is", "reversed", "outside", "shifted"]
